@@ -30,6 +30,10 @@ def run(ctx):
         quick = ctx.tier == "quick"
         nsim = int(os.environ.get("VERIF_C12_SIM", "150" if quick else "1500"))
         jobs = [(c, None) for c in (QUICK if quick else QUICK + THOROUGH)] + [(c, nsim) for c in SIM]
+        if os.environ.get("VERIF_C12_CFGS"):      # development aid: only these configurations
+            only = os.environ["VERIF_C12_CFGS"].split(",")
+            jobs = [j for j in jobs if j[0] in only]
+            ctx.notes.append("restricted to configurations %s" % only)
         parts = {}
 
         def one(job):
